@@ -726,8 +726,8 @@ def confOf (l : Life) : Conf :=
 /-- **update_preserves_configuration.** A header update changes the head (and the stored header) and adds a consensus
     state; every other field of the stored client state — contract, chain id, trusting period, TimeDelay, BlockDelay — is
     unchanged. -/
-theorem update_preserves_configuration (l : Life) (h : Height) (hash root : Bytes) (time : UInt64) :
-    confOf (update l h hash root time) = confOf l := rfl
+theorem update_preserves_configuration (l : Life) (h : Height) (hash parent root : Bytes) (time : UInt64) :
+    confOf (update l h hash parent root time) = confOf l := rfl
 
 theorem applyUpd_preserves_configuration (l : Life) (u : Upd) : confOf (applyUpd l u) = confOf l := by
   unfold applyUpd; split
@@ -749,12 +749,12 @@ theorem delayBlock_of_conf {l l' : Life} (h : confOf l' = confOf l) : l'.cs.dela
 /-- **configured_delay_in_force.** Create (or upgrade, toggle) with configuration `c`, apply any header updates, verify on
     the stored state: acceptance implies `proof block + c.blockDelay ≤ head block` with the BlockDelay of the
     proposal, for every TimeDelay, and the contract checked is the configured one. -/
-theorem configured_delay_in_force (env : Env) (c : Config) (old : ConsStore) (us : List Upd) (h : Height) (proof : ProofArg)
+theorem configured_delay_in_force (env : Env) (c : Config) (old : ConsStore) (oh : List Hdr) (us : List Upd) (h : Height) (proof : ProofArg)
     (k : PathKind) (src dst : Bytes) (seq : UInt64) (value : Bytes)
-    (hacc : verifyStored env (applyUpds (fromConfig c old) us) h proof k src dst seq value = .ok ()) :
-    h.rh.toNat + c.blockDelay.toNat ≤ (applyUpds (fromConfig c old) us).cs.head.rh.toNat
-    ∧ (applyUpds (fromConfig c old) us).cs.contract = c.contract := by
-  have hc := updates_preserve_configuration (fromConfig c old) us
+    (hacc : verifyStored env (applyUpds (fromConfig c old oh) us) h proof k src dst seq value = .ok ()) :
+    h.rh.toNat + c.blockDelay.toNat ≤ (applyUpds (fromConfig c old oh) us).cs.head.rh.toNat
+    ∧ (applyUpds (fromConfig c old oh) us).cs.contract = c.contract := by
+  have hc := updates_preserve_configuration (fromConfig c old oh) us
   have hd := delayBlock_of_conf hc
   have hg := (delay_gate hacc).2
   rw [hd] at hg
@@ -766,7 +766,60 @@ def toyConfig : Config :=
   { contract := [1], chainId := 4, trusting := 9, timeDelay := 0, blockDelay := 3,
     head := ⟨0, 10⟩, headHash := [7], cons := ⟨1, ⟨0, 10⟩, [2]⟩ }
 
-def toyUpds : List Upd := [⟨true, ⟨0, 11⟩, [8], [3], 2⟩, ⟨false, ⟨0, 12⟩, [9], [4], 3⟩, ⟨true, ⟨0, 12⟩, [9], [4], 3⟩]
+/-- 10 ← 11 ← 12 accepted (13 refused), then a competing child 11' of 10: the head moves DOWN to height 11 -/
+def toyUpds : List Upd :=
+  [⟨true, ⟨0, 11⟩, [8], [7], [3], 2⟩, ⟨false, ⟨0, 12⟩, [9], [8], [4], 3⟩, ⟨true, ⟨0, 12⟩, [9], [8], [4], 3⟩]
+
+def toyReorg : List Upd := toyUpds ++ [⟨true, ⟨0, 11⟩, [0x18], [7], [5], 4⟩]
+
+/-- the last accepted update of a list (none if none was accepted) -/
+def lastAccepted : List Upd → Option Upd
+  | [] => none
+  | u :: us => match lastAccepted us with
+    | some v => some v
+    | none => if u.accepted then some u else none
+
+/-- **head_follows_last_accepted_update.** After any sequence of accepted / rejected updates — extensions, siblings,
+    height-DEcreasing ones — the stored head (height and header) is the one of the last accepted update; with no accepted
+    update it is unchanged. The head is not a maximum over the history. -/
+theorem head_follows_last_accepted_update (l : Life) (us : List Upd) :
+    (applyUpds l us).cs.head = (match lastAccepted us with | some u => u.h | none => l.cs.head)
+    ∧ (applyUpds l us).headHash = (match lastAccepted us with | some u => u.hash | none => l.headHash) := by
+  induction us generalizing l with
+  | nil => exact ⟨rfl, rfl⟩
+  | cons u us ih =>
+    simp only [applyUpds, List.foldl_cons] at *
+    have := ih (applyUpd l u)
+    simp only [lastAccepted]
+    cases hl : lastAccepted us with
+    | some v => simpa [hl] using this
+    | none =>
+      rw [hl] at this
+      by_cases ha : u.accepted = true
+      · simp only [ha, ↓reduceIte]
+        simpa [applyUpd, ha, update] using this
+      · simp only [ha, Bool.false_eq_true, ↓reduceIte]
+        simpa [applyUpd, ha] using this
+
+/-- the reorganisation moves the head down and re-points height 11; the abandoned state at height 12 stays stored, above
+    the head -/
+example : (applyUpds (create toyConfig) toyReorg).cs.head = ⟨0, 11⟩
+    ∧ (applyUpds (create toyConfig) toyReorg).store.get ⟨0, 11⟩ = some (.state ⟨4, ⟨0, 11⟩, [5]⟩)
+    ∧ (applyUpds (create toyConfig) toyReorg).store.get ⟨0, 12⟩ = some (.state ⟨3, ⟨0, 12⟩, [4]⟩)
+    ∧ (confOf (applyUpds (create toyConfig) toyReorg)).blockDelay = 3 := by decide
+
+/-- … and no proof at the abandoned height 12 is accepted any more (it is above the head), whatever the proof -/
+theorem above_head_rejected_after_reorg (env : Env) (proof : ProofArg) (k : PathKind) (src dst : Bytes) (seq : UInt64) (value : Bytes) :
+    verifyStored env (applyUpds (create toyConfig) toyReorg) ⟨0, 12⟩ proof k src dst seq value ≠ .ok () := by
+  intro hacc
+  have := (delay_gate hacc).2
+  have hh : (applyUpds (create toyConfig) toyReorg).cs.head = ⟨0, 11⟩ := by decide
+  rw [hh] at this
+  have e1 : (12 : UInt64).toNat = 12 := by decide
+  have e2 : (11 : UInt64).toNat = 11 := by decide
+  simp only [e1, e2] at this
+  omega
+
 
 example : (confOf (applyUpds (create toyConfig) toyUpds)).blockDelay = 3
     ∧ (confOf (applyUpds (create toyConfig) toyUpds)).timeDelay = 0
